@@ -100,8 +100,12 @@ EXTRA_PROJECTS: Dict[str, Dict[str, str]] = {
     "redefined-members": {"pkg/__init__.py": '"""Package."""\n',
                           "pkg/mod.py": '"""Module."""\nThing = None\n"""Placeholder."""\nclass Thing:\n    """The real Thing."""\n'
                                         '    def f(self):\n        """First f."""\n    def f(self):\n        """Second f."""\n'},
+    # a module whose docstring has section titles, listed (expandable) in the sidebar of its package
+    "sectioned-docstring": {"pkg/__init__.py": '"""Package."""\n',
+                            "pkg/mod.py": '"""\nModule with sections.\n\nSection One\n===========\n\nText one.\n\nSection Two\n===========\n\nText two.\n"""\n'
+                                          '__docformat__ = "restructuredtext"\ndef f():\n    """Function f."""\n'},
 }
-EXTRA_SRC = {"redefined-base": ["m.py"], "non-ascii": ["m.py"], "redefined-members": ["pkg"]}
+EXTRA_SRC = {"redefined-base": ["m.py"], "non-ascii": ["m.py"], "redefined-members": ["pkg"], "sectioned-docstring": ["pkg"]}
 
 ALL_PRODS = ["namespace", "childTable", "baseTable", "baseName", "classSignature", "subclasses", "overrides",
              "overriddenIn", "headerLink", "inhierarchy", "docstring", "memberDoc", "summaryDoc", "annotation",
@@ -256,6 +260,8 @@ class View:
     def kf_link(self, page: str, f: str, g: str, prod: str, member: str = "") -> str:
         if f in self.encfiles:
             return "percent-encoded-page-filename"
+        if prod == "tocBackref" and f == page and g != "":
+            return "toc-backref-stale-id"
         if prod in ALLOBJECTS_PRODS and (f, g) in self.superseded_urls:
             return "superseded-duplicate-listed"
         if prod == "memberDoc" and f == page and g != "" and member in self.o and self.o[member]["docsrc"] != member:
@@ -347,6 +353,8 @@ def _facts_class(w: Dict[str, Any]) -> str:
             "superseded-duplicate-not-rendered" if f.get("obj_superseded") else "none"
     if f.get("page_written_under_encoded_name"):
         return "percent-encoded-page-filename"
+    if prod == "tocBackref" and inst.get("file") == inst.get("page") and inst.get("frag"):
+        return "toc-backref-stale-id"
     if prod in ALLOBJECTS_PRODS and f.get("target_superseded"):
         return "superseded-duplicate-listed"
     if prod == "memberDoc" and inst.get("file") == inst.get("page") and inst.get("frag") and f.get("member_doc_inherited"):
@@ -368,6 +376,10 @@ def kf_superseded_duplicate_listed(w: Dict[str, Any]) -> bool:
 
 def kf_superseded_duplicate_not_rendered(w: Dict[str, Any]) -> bool:
     return w.get("invariant") in C11_INVARIANTS and _facts_class(w) == "superseded-duplicate-not-rendered"
+
+
+def kf_toc_backref_stale_id(w: Dict[str, Any]) -> bool:
+    return w.get("invariant") == "LinksResolve" and _facts_class(w) == "toc-backref-stale-id"
 
 
 def kf_percent_encoded_page_filename(w: Dict[str, Any]) -> bool:
@@ -554,6 +566,7 @@ def run_property(ctx: Ctx, prop: str) -> int:
         ctx.register_matcher("superseded-duplicate-listed", kf_superseded_duplicate_listed)
         ctx.register_matcher("superseded-duplicate-not-rendered", kf_superseded_duplicate_not_rendered)
         ctx.register_matcher("percent-encoded-page-filename", kf_percent_encoded_page_filename)
+        ctx.register_matcher("toc-backref-stale-id", kf_toc_backref_stale_id)
         ctx.register_matcher("inherited-docstring-samepage-link", kf_inherited_docstring_link)
         ctx.register_matcher("dead-link-to-hidden-object", kf_dead_link_to_hidden)
         ctx.register_matcher("dead-link-hidden-root", kf_dead_link_hidden_root)
